@@ -1601,9 +1601,16 @@ R"(
 
         for(const auto& d : members.data)
         {
+            // `<data>` view is created without moving the cursor because that
+            // requires reading its length. Visitors like the one behind
+            // `sbepp::size_bytes_checked` have to validate that the length is
+            // within the buffer first. Cursor is advanced only if visitor
+            // doesn't stop.
             res.push_back(
                 fmt::format(
-                    "v.on_data(this->{name}(c), {tag}{{}})",
+                    "(v.on_data(this->{name}(::sbepp::cursor_ops::dont_move(c)), "
+                    "{tag}{{}}) || (this->{name}(::sbepp::cursor_ops::skip(c)), "
+                    "false))",
                     fmt::arg("name", d.name),
                     fmt::arg("tag", ctx_manager->get(d).tag)));
         }
